@@ -262,6 +262,99 @@ func (g *gen) connect() {
 	}
 }
 
+// premetaAdvert: what a peer may say about its pieces while we do not know the metadata:
+// Have (also beyond the torrent), Bitfield, HaveAll, HaveNone, DontHave, in any combination,
+// redundant and contradictory (e.g. HaveAll followed by a repeated Have).
+func (g *gen) premetaAdvert(i int) {
+	np := g.s.npieces()
+	idx := func() int {
+		if g.r.Chance(12) {
+			return np + g.r.Intn(12) // not a piece of this torrent: only found out later
+		}
+		return g.r.Intn(np)
+	}
+	switch g.r.Intn(14) {
+	case 0, 1, 2, 3:
+		g.peerOp(i, fmt.Sprintf("msg %d %s have %d", i, g.slow(), idx()))
+	case 4, 5:
+		var bits []string
+		for k := 0; k < np; k++ {
+			if g.r.Chance(60) {
+				bits = append(bits, fmt.Sprint(k))
+			}
+		}
+		if g.r.Chance(15) {
+			bits = append(bits, fmt.Sprint(np+g.r.Intn(20)))
+		}
+		l := "-"
+		if len(bits) > 0 {
+			l = strings.Join(bits, ",")
+		}
+		g.peerOp(i, fmt.Sprintf("msg %d %s bitfield %s", i, g.slow(), l))
+	case 6, 7, 8:
+		g.peerOp(i, fmt.Sprintf("msg %d %s haveall", i, g.slow()))
+		if g.s.peers[i].alive && g.r.Chance(50) { // the redundant Have after HaveAll
+			g.peerOp(i, fmt.Sprintf("msg %d %s have %d", i, g.slow(), idx()))
+		}
+	case 9:
+		g.peerOp(i, fmt.Sprintf("msg %d %s havenone", i, g.slow()))
+	case 10, 11:
+		g.peerOp(i, fmt.Sprintf("msg %d %s donthave %d", i, g.slow(), idx()))
+	case 12:
+		g.peerOp(i, fmt.Sprintf("msg %d %s allowedfast %d", i, g.slow(), idx()))
+	case 13:
+		m := g.r.PickInt(0, 1, 2)
+		g.peerOp(i, fmt.Sprintf("msg %d %s %s", i, g.slow(), []string{"choke", "unchoke", "piece 0 0 16384"}[m]))
+	}
+}
+
+// beforeMetadata: the peers talk while the metadata is unknown, then the metadata completes
+// (real TorMetaData handler, PeerMetadataComplete to every peer) at an arbitrary moment.
+func (g *gen) beforeMetadata() {
+	s := g.s
+	steps := g.r.Intn(25)
+	for k := 0; k < steps; k++ {
+		al := g.alive()
+		switch x := g.r.Intn(100); {
+		case x < 55 && len(al) > 0:
+			g.premetaAdvert(g.pick(al))
+		case x < 62 && len(al) > 0:
+			g.pev(g.pick(al))
+		case x < 66 && len(al) > 0:
+			s.do(fmt.Sprintf("exit %d", g.pick(al)))
+		case x < 74:
+			if len(s.peers) > 0 {
+				s.do(fmt.Sprintf("flush %d", g.r.Intn(len(s.peers))))
+			}
+		case x < 90:
+			g.tev()
+		case x < 94 && len(s.peers) < 5:
+			g.connect()
+		default:
+			if g.r.Chance(40) {
+				g.drain()
+			}
+		}
+	}
+	// room for PeerMetadataComplete in every live peer's command channel
+	for i, sp := range s.peers {
+		for k := 0; sp.alive && sp.present && sp.evcap-len(sp.p.Event) < 4 && k < 300; k++ {
+			g.pev(i)
+		}
+	}
+	s.do("metac")
+	switch g.r.Intn(3) {
+	case 0:
+		g.drain()
+	case 1:
+		for i, sp := range s.peers {
+			if sp.alive && g.r.Bool() {
+				g.pev(i)
+			}
+		}
+	}
+}
+
 func (g *gen) history() {
 	s := g.s
 	g.c.NewCase()
@@ -270,10 +363,18 @@ func (g *gen) history() {
 		gm = [2]int64{2097152, 2097152 + 1200000}
 	}
 	tcap := g.r.PickInt(4, 8, 8, 64, 512)
-	s.do(fmt.Sprintf("init %d %d %d", gm[0], gm[1], tcap))
+	magnet := g.r.Chance(30)
+	if magnet {
+		s.do(fmt.Sprintf("minit %d %d %d", gm[0], gm[1], tcap))
+	} else {
+		s.do(fmt.Sprintf("init %d %d %d", gm[0], gm[1], tcap))
+	}
 	n := 2 + g.r.Intn(3)
 	for k := 0; k < n; k++ {
 		g.connect()
+	}
+	if magnet {
+		g.beforeMetadata()
 	}
 	steps := 20 + g.r.Intn(60)
 	for k := 0; k < steps; k++ {
